@@ -413,8 +413,14 @@ func TestVerif_C16_Libp2pChannel(t *testing.T) {
 					<-gate // the harness keeps this receiver busy inside its handler
 				}
 			})
+			// the receiver's queue inside the channel (it may be gone already
+			// when a real timeout ran out; it is only used to wait, never to judge)
 			ch.messageHandlersMutex.Lock()
-			r.inbox = ch.messageHandlers[len(ch.messageHandlers)-1].channel
+			for _, h := range ch.messageHandlers {
+				if h.ctx == ctx {
+					r.inbox = h.channel
+				}
+			}
 			ch.messageHandlersMutex.Unlock()
 			hist = append(hist, fmt.Sprintf("recv%d:%s", r.id, kind))
 			return r
